@@ -160,17 +160,22 @@ Definition ex_m := mkBM MNre (bytes_of_string "日本.x") (bytes_of_string (bs [
 Example c16_roundtrip_nonvacuous :
   (plain ex_sp (fun _ => true) ex_m /\ plain ex_sp (fun _ => true) (mkBM MEq [97] [])) /\
   utf8_matchers ex_sp (fun _ => true) (print_list_b ex_sp (fun _ => true) [ex_m; mkBM MEq [97] []]) = Ok [ex_m; mkBM MEq [97] []].
-Proof. split; [split; (split; [discriminate|vm_compute; repeat split; reflexivity])|vm_compute; reflexivity]. Qed.
-(* inputs on which the two parsers accept and differ, classic wins: foo=b\ar is b\ar (classic) vs. error (UTF-8);
+Proof.
+  unfold plain. repeat split; try (intros _; reflexivity); try (vm_compute; reflexivity);
+    intros E; vm_compute in E; discriminate E.
+Qed.
+(* classic-only input: foo=b\ar is accepted by classic, rejected by the UTF-8 parser, still accepted in fallback;
+   accepted by both with different results (backslash-t is a TAB for the UTF-8 parser, two characters for classic):
+   the classic result is returned;
    an input rejected by both is an error *)
 Example c16_fallback_nonvacuous :
   let sp := ex_sp in let cp := fun _ : list Z => true in
   utf8_matchers sp cp (bytes_of_string "foo=b\ar") = Err "expected-comma-or-close-brace" /\
   compat_matchers sp cp Fallback (bytes_of_string "foo=b\ar") = Ok [mkBM MEq [102;111;111] [98;92;97;114]] /\
-  utf8_matchers sp cp (bytes_of_string "foo=""b\nar""") <> classic_matchers sp cp (bytes_of_string "foo=""b\nar""") /\
-  compat_matchers sp cp Fallback (bytes_of_string "foo=""b\nar""") = classic_matchers sp cp (bytes_of_string "foo=""b\nar""") /\
+  utf8_matchers sp cp (bytes_of_string "foo=""b\tar""") <> classic_matchers sp cp (bytes_of_string "foo=""b\tar""") /\
+  compat_matchers sp cp Fallback (bytes_of_string "foo=""b\tar""") = classic_matchers sp cp (bytes_of_string "foo=""b\tar""") /\
   compat_matchers sp cp Fallback (bytes_of_string "=") = Err "bad-format".
-Proof. vm_compute. repeat split; try reflexivity. discriminate. Qed.
+Proof. vm_compute. repeat split; try reflexivity. intros E; discriminate E. Qed.
 
 Print Assumptions c16_matches_spec.
 Print Assumptions c16_utf8_parser_never_panics_or_loops.
